@@ -119,6 +119,8 @@ class Engine:
         self.pc = []
         self.solver.reset()
         self.solver.set("timeout", 5000)
+        self.bounds = {}
+        self.tbounds = {}                 # term id -> (term, (lo, hi)) facts recorded by operator models
         self.decisions = list(prefix)
         self.dpos = 0
         self.new_prefixes = []
@@ -148,6 +150,115 @@ class Engine:
             return
         self.pc.append(cond)
         self.solver.add(cond)
+        self._learn_bounds(cond)
+
+    # cheap interval facts about symbols, gleaned from assumed comparisons (used before asking the solver)
+    def _learn_bounds(self, cond):
+        todo = [cond]
+        while todo:
+            c = todo.pop()
+            if z3.is_and(c):
+                todo.extend(c.children())
+                continue
+            if not z3.is_app(c) or c.num_args() != 2:
+                continue
+            k = c.decl().kind()
+            a, b = c.arg(0), c.arg(1)
+            flip = {z3.Z3_OP_LE: z3.Z3_OP_GE, z3.Z3_OP_GE: z3.Z3_OP_LE, z3.Z3_OP_LT: z3.Z3_OP_GT, z3.Z3_OP_GT: z3.Z3_OP_LT,
+                    z3.Z3_OP_EQ: z3.Z3_OP_EQ}
+            if k not in flip:
+                continue
+            if z3.is_int_value(a) and not z3.is_int_value(b):
+                a, b, k = b, a, flip[k]
+            if not (z3.is_int_value(b) and z3.is_const(a) and a.decl().kind() == z3.Z3_OP_UNINTERPRETED and z3.is_int(a)):
+                continue
+            v = b.as_long()
+            lo, hi = self.bounds.get(a.get_id(), (None, None))
+            if k in (z3.Z3_OP_LE, z3.Z3_OP_LT, z3.Z3_OP_EQ):
+                u = v if k != z3.Z3_OP_LT else v - 1
+                hi = u if hi is None else min(hi, u)
+            if k in (z3.Z3_OP_GE, z3.Z3_OP_GT, z3.Z3_OP_EQ):
+                l = v if k != z3.Z3_OP_GT else v + 1
+                lo = l if lo is None else max(lo, l)
+            self.bounds[a.get_id()] = (lo, hi)
+
+    def interval(self, t, depth=0):
+        """(lo, hi) with None = unbounded; sound over-approximation of the term's value under the path condition."""
+        if isinstance(t, int):
+            return (t, t)
+        if z3.is_int_value(t):
+            return (t.as_long(), t.as_long())
+        if depth > 40 or not z3.is_app(t):
+            return (None, None)
+        tb = self.tbounds.get(t.get_id())
+        if tb is not None:
+            return tb[1]
+        k = t.decl().kind()
+        if k == z3.Z3_OP_UNINTERPRETED and t.num_args() == 0:
+            return self.bounds.get(t.get_id(), (None, None))
+        ch = [self.interval(c, depth + 1) for c in t.children()] if k in (z3.Z3_OP_ADD, z3.Z3_OP_SUB, z3.Z3_OP_MUL, z3.Z3_OP_UMINUS) else None
+
+        def add(x, y):
+            return None if x is None or y is None else x + y
+        if k == z3.Z3_OP_ADD:
+            lo, hi = 0, 0
+            for (l, h) in ch:
+                lo, hi = add(lo, l), add(hi, h)
+            return (lo, hi)
+        if k == z3.Z3_OP_UMINUS:
+            l, h = ch[0]
+            return (None if h is None else -h, None if l is None else -l)
+        if k == z3.Z3_OP_SUB:
+            lo, hi = ch[0]
+            for (l, h) in ch[1:]:
+                lo, hi = add(lo, None if h is None else -h), add(hi, None if l is None else -l)
+            return (lo, hi)
+        if k == z3.Z3_OP_MUL and len(ch) == 2:
+            (a, b), (c, d) = ch
+            if None in (a, b, c, d):
+                return (None, None)
+            ps = [a * c, a * d, b * c, b * d]
+            return (min(ps), max(ps))
+        if k == z3.Z3_OP_MOD:
+            d = t.arg(1)
+            if z3.is_int_value(d) and d.as_long() > 0:
+                l, h = self.interval(t.arg(0), depth + 1)
+                if l is not None and h is not None and l >= 0 and h < d.as_long():
+                    return (l, h)
+                return (0, d.as_long() - 1)
+            return (None, None)
+        if k == z3.Z3_OP_IDIV:
+            d = t.arg(1)
+            if z3.is_int_value(d) and d.as_long() > 0:
+                l, h = self.interval(t.arg(0), depth + 1)
+                dv = d.as_long()
+                return (None if l is None else l // dv, None if h is None else h // dv)
+            return (None, None)
+        if k == z3.Z3_OP_ITE:
+            (a, b), (c, d) = self.interval(t.arg(1), depth + 1), self.interval(t.arg(2), depth + 1)
+            return (None if a is None or c is None else min(a, c), None if b is None or d is None else max(b, d))
+        if k == z3.Z3_OP_SELECT:
+            a = t.arg(0)
+            from ..common.core import RANGED
+            if z3.is_const(a) and a.decl().name() in RANGED:
+                return RANGED[a.decl().name()]
+            return (None, None)
+        if k == z3.Z3_OP_UNINTERPRETED and t.num_args() == 1:
+            from ..common.core import UF_TABLES
+            nm = t.decl().name()
+            if nm in UF_TABLES:
+                # a table application is only meaningful inside the table (the index check precedes it)
+                vals = UF_TABLES[nm][1]
+                il, ih = self.interval(t.arg(0), depth + 1)
+                if il is not None and ih is not None and 0 <= il and ih < len(vals):
+                    return (min(vals[il:ih + 1]), max(vals[il:ih + 1]))
+            return (None, None)
+        return (None, None)
+
+    def note_bounds(self, t, lo, hi):
+        if z3.is_expr(t):
+            self.tbounds[t.get_id()] = (t, (lo, hi))
+        return t
 
     def feasible(self, cond):
         self.stats["feas_checks"] += 1
